@@ -4,14 +4,19 @@
 (*    pys   : << [name, ctxname, scope] >>  (files the scenario placed below modules/, apps/), *)
 (*    cases : << case >>]                                                                     *)
 (* case kinds                                                                                 *)
-(*  "import"  an ImportCore statement + obs = [exc, bound : <<names>>, vals : << [n, c] >>]    *)
+(*  "import"  an ImportCore statement + obs = [exc, bound : <<names>>, vals : << [n, c] >>,    *)
+(*            places : [script, g, l : <<names newly bound in that mapping>>]]                *)
+(*            bound = all names bound anywhere; places tells in which mapping (the script's   *)
+(*            global table, the globals / locals mapping passed to eval / exec)              *)
 (*            (c = identity class of what name n is bound to: "module:M" = sys.modules[M],    *)
 (*            "pysmod:CTX" = the module object of pyscript context CTX, "attr:..." = the      *)
 (*            attribute of that module, anything else = something foreign)                    *)
-(*  "builtin" [name, scope, out]  out = what the plain name evaluates to: "NameError" |        *)
+(*  "builtin" [name, scope, ns, out]  out = what the plain name evaluates to: "NameError" |    *)
 (*            "builtin" (the real builtins object) | "replacement" | "exc:<class>"            *)
-(*  "log"     [fn, ctxname, func, loggers : <<logger names that received the marker>>,        *)
-(*            stdout : the marker reached the process's stdout]                               *)
+(*  "log"     [fn, where, via, ns, ctxname, func, loggers : <<logger names that received the  *)
+(*            marker>>, stdout : the marker reached the process's stdout]  the call fn(marker) *)
+(*            written directly (via "direct") or inside text given to exec / eval / eval(exec) *)
+(*            with namespace arguments ns                                                     *)
 (* Rejections name the clause; deviations that one named flag of ImportCore explains are      *)
 (* reported under the flag's name.                                                            *)
 EXTENDS ImportCore, TLC, Json, IOUtils
@@ -30,7 +35,11 @@ ValOK(cs, v, flags) ==
          /\ \/ v.c = ClassOf(cs, E, c)
             \/ cs.via = "compiled" /\ "compiled-native" \in flags
       \/ cs.form = "import" /\ c.as = "-" /\ Len(c.parts) > 1 /\ v.n = c.parts[1] /\ v.c = "module:" \o c.parts[1]
-ImportOK(cs, flags) == Obs(cs) \in Outcomes(cs, E, flags) /\ \A i \in 1..Len(cs.obs.vals) : ValOK(cs, cs.obs.vals[i], flags)
+\* the names are bound in the mapping the call designates (ImportCore!Place) and in no other
+PlacesOK(cs) == \A q \in Places : ToSet(cs.obs.places[q]) = IF q = Place(cs.via, cs.ns) THEN ToSet(cs.obs.bound) ELSE {}
+ImportOK(cs, flags) == /\ Obs(cs) \in Outcomes(cs, E, flags)
+                       /\ \A i \in 1..Len(cs.obs.vals) : ValOK(cs, cs.obs.vals[i], flags)
+                       /\ PlacesOK(cs)
 
 ImportWhy(cs) ==
   LET X == Outcomes(cs, E, {})  o == Obs(cs)
@@ -42,21 +51,27 @@ ImportWhy(cs) ==
                ELSE "failed-import-binds-names"
      ELSE IF o.exc # "ok" /\ \A x \in X : x.exc = "ok" THEN (IF o.exc = Refusal THEN "allowed-import-refused" ELSE "allowed-import-fails")
      ELSE IF o \notin X THEN "wrong-names-bound"
+     ELSE IF ~PlacesOK(cs) THEN "bound-in-wrong-namespace"
      ELSE "wrong-object-bound"
 
+GDeclScopes == {"global-decl", "global-decl-nested", "global-decl-method", "global-decl-exec", "global-decl-eval", "global-decl-many"}
 BuiltinOK(cs, flags) ==
-  cs.name \in Excluded => \/ cs.out \in {"NameError", "replacement"}
-                          \/ "compiled-native-builtins" \in flags /\ cs.scope \in {"lambda", "compiled"}
-\* where = "global-decl": print under `global print` in a function - NameError (nothing logged) or the replacement
-LogOK(cs) == /\ ~cs.stdout
-             /\ \/ cs.where = "global-decl" /\ Len(cs.loggers) = 0
-                \/ /\ Len(cs.loggers) = 1
+  cs.name \in Excluded \cup CtxBound => \/ cs.out \in NameResolves(cs.name, FALSE, cs.scope \in GDeclScopes)
+                                        \/ "compiled-native-builtins" \in flags /\ cs.scope \in {"lambda", "compiled"}
+\* the call fn(marker): where the rule says the name is the context-bound function, exactly one record on the
+\* script's logger; where NameError is admissible too (`global print` in a function), none or that one
+LogOK(cs) == LET R == NameResolves(cs.fn, FALSE, cs.where = "global-decl") IN
+             /\ ~cs.stdout
+             /\ \/ "NameError" \in R /\ Len(cs.loggers) = 0
+                \/ /\ "replacement" \in R
+                   /\ Len(cs.loggers) = 1
                    /\ cs.loggers[1] \in {LoggerBase \o cs.ctxname, LoggerBase \o cs.ctxname \o "." \o cs.func}
 
 Why(cs) == CASE cs.kind = "import"  -> IF ImportOK(cs, {}) THEN "" ELSE ImportWhy(cs)
              [] cs.kind = "builtin" -> IF BuiltinOK(cs, {}) THEN ""
                                        ELSE IF BuiltinOK(cs, {"compiled-native-builtins"}) THEN "compiled-native-builtins"
-                                       ELSE "excluded-builtin-reachable"
+                                       ELSE IF cs.out = "builtin" THEN "excluded-builtin-reachable"
+                                       ELSE "context-function-unreachable"     \* print is not the function bound to the script
              [] cs.kind = "log"     -> IF LogOK(cs) THEN "" ELSE IF cs.stdout THEN "writes-to-stdout" ELSE "not-on-the-scripts-logger"
              [] OTHER -> "unknown-case-kind"
 
